@@ -42,6 +42,14 @@ theorem C19_no_side_effect_routes :
     Gen.httpDefaultMuxUsers = [] ∧
     50 < Gen.httpClosureSize := by decide
 
+/-- the decision depends on nothing but the Host header: the only field of the request
+    `checkLocal` reads is `r.Host` (no r.Header — Origin, Referer, X-Forwarded-Host… —, no
+    r.URL, r.RemoteAddr, r.Form, cookies; the request is not handed to any other function).
+    Together with the model, in which `checkLocal` is a function of the Host string alone,
+    and the harness's attribute sweep, no other attribute of a request can make a foreign
+    Host acceptable or a local one refused. -/
+theorem C19_checklocal_reads_host_only : Gen.checkLocalReads = ["r.Host"] := by decide
+
 /-- a DNS name in the sense of the property: no colon (so not an IPv6 literal) and at
     least one character that is neither a digit nor a dot (so not a dotted quad) -/
 def dnsName (h : Str) : Prop := 58 ∉ h ∧ ∃ c ∈ h, isDigit c = false ∧ c ≠ 46
